@@ -419,13 +419,30 @@ func r15_5(c *Ctx, r *Report) {
 	_ = loops
 	for _, b := range fn.Blocks {
 		for _, ins := range b.Instrs {
-			if phi, ok := ins.(*ssa.Phi); ok && phi.Comment == "month" && len(of[b]) > 0 && of[b][len(of[b])-1].header == b {
-				monthPhi = phi
+			// the loop-carried current month: the header value each reported week's month is compared with
+			if bo, ok := ins.(*ssa.BinOp); ok && (bo.Op == token.NEQ || bo.Op == token.EQL) {
+				for _, pr := range [][2]ssa.Value{{bo.X, bo.Y}, {bo.Y, bo.X}} {
+					phi, isPhi := pr[0].(*ssa.Phi)
+					if !isPhi || !isIntType(phi.Type()) {
+						continue
+					}
+					hb := phi.Block()
+					if len(of[hb]) == 0 || of[hb][len(of[hb])-1].header != hb {
+						continue
+					}
+					other := pr[1]
+					if ph2, ok := other.(*ssa.Phi); ok && len(ph2.Edges) > 0 {
+						other = ph2.Edges[0]
+					}
+					if _, f, ok := getterField(c, other); ok && f == "SolarWeek.month" {
+						monthPhi = phi
+					}
+				}
 			}
 		}
 	}
 	if monthPhi == nil {
-		r.bad(rule, "calendar.(*SolarWeek).Next tracks the current month across steps", c.fnPos(fn), "no loop-carried 'month' found (undecided = fail)")
+		r.bad(rule, "calendar.(*SolarWeek).Next tracks the current month across steps", c.fnPos(fn), "no loop-carried month that the reported week's month is compared with was found (undecided = fail)")
 		return
 	}
 	var bad []string
